@@ -17,6 +17,7 @@ OFF_BY_DEFAULT = ["code-style-check", "incomplete-signature-doc", "missing-globa
                   "non-literal-expressions-in-assert"]
 CONFIGS = [("default", None, True), ("all", {"diagnostics": {"enables": OFF_BY_DEFAULT}}, True),
            ("nosyntax", {"diagnostics": {"disable": ["syntax-error", "doc-syntax-error"]}}, False)]
+SUBST = {"<q>": '"', "<sq>": "'", "<bs>": "\\", "<e2>": "é"}
 PLACEHOLDER = re.compile(r"%\{[A-Za-z_][A-Za-z0-9_]*\}|\{[A-Za-z_][A-Za-z0-9_]*\}|\{\}")
 
 
@@ -30,7 +31,10 @@ def render(toks, nl):
             continue
         if not first:
             out.append(" ")
-        out.append(SPECIAL.get(t, t))
+        t2 = SPECIAL.get(t, t)
+        for k, v in SUBST.items():
+            t2 = t2.replace(k, v)
+        out.append(t2)
         first = False
         if t.startswith("<DOC"):
             out.append(eol)
@@ -59,8 +63,9 @@ def gen_programs(ctx):
             out.append((text, p))
     if ctx.quick:
         rnd = random.Random(ctx.seed)
-        plain = [x for x in out if x[1]["mut"][0] == "none"]
-        rest = [x for x in out if x[1]["mut"][0] != "none"]
+        # all uncorrupted programs and the whole "err" family; a seeded sample of the corrupted base programs
+        plain = [x for x in out if x[1]["mut"][0] == "none" or x[1]["fam"] == "err"]
+        rest = [x for x in out if x[1]["mut"][0] != "none" and x[1]["fam"] != "err"]
         out = plain + rnd.sample(rest, min(len(rest), 6000))
     return out
 
@@ -69,7 +74,7 @@ def run(ctx):
     vlib.build(["vh-analysis"])
     if ctx.replay:
         rec = json.load(open(ctx.replay))
-        progs = [(rec["detail"]["first"]["program"], {"mut": ["replay", 0]})]
+        progs = [(rec["detail"]["first"]["program"], {"mut": ["replay", 0], "fam": "replay"})]
     else:
         progs = gen_programs(ctx)
     cases, meta = [], []
@@ -91,11 +96,15 @@ def run(ctx):
         diags = []
         for d in res or []:
             mid = msgs.setdefault(d["msg"], len(msgs))
+            # a placeholder left in the message; `{name}` that is a verbatim piece of the program (a message quoting
+            # the literal "\u{D800}") is an echo of the source, not a placeholder
+            ph = any(m.group(0) not in text for m in PLACEHOLDER.finditer(d["msg"]))
             diags.append(d["r"] + [d["code"] if isinstance(d["code"], str) else "", 0 if d["sev"] is None else 1,
-                                   1 if PLACEHOLDER.search(d["msg"]) else 0, mid, 0 if d["sev"] is None else d["sev"]])
+                                   1 if ph else 0, mid, 0 if d["sev"] is None else d["sev"]])
         errs = []
         for e in o["errors"]["main/a.lua"]:
-            errs.append(list(_diag.byte_to_pos(text, e["s"])) + list(_diag.byte_to_pos(text, e["e"])))
+            errs.append(list(_diag.byte_to_pos(text, e["s"])) + list(_diag.byte_to_pos(text, e["e"]))
+                        + [msgs.setdefault(e["msg"], len(msgs))])
         recs.append({"id": len(recs), "lens": _diag.line_table(text), "none": res is None, "syn": syn,
                      "diags": diags, "errs": errs})
         keep.append((text, cname, res, o["errors"]["main/a.lua"], p))
@@ -121,7 +130,10 @@ def run(ctx):
             for w in v[pred]:
                 if pred == "uncovered":
                     wit = errs[w - 1]
-                    sig = "C21/uncovered-parse-error/%s" % wit["kind"]
+                    at = recs[rid]["errs"][w - 1][:4]
+                    other = any(d[:4] == at and d[4] in ("syntax-error", "doc-syntax-error") for d in recs[rid]["diags"])
+                    sig = "C21/uncovered-parse-error/%s/%s" % (
+                        wit["kind"], "other-message-at-range" if other else "no-diagnostic-at-range")
                 else:
                     wit = diags[w - 1]
                     sig = "C21/%s/%s" % (pred, wit["code"])
@@ -132,11 +144,18 @@ def run(ctx):
     ctx.note("programs", len(progs))
     ctx.note("records_with_parse_errors", sum(1 for r in recs if r["errs"]))
     ctx.note("diagnostics_judged", sum(len(r["diags"]) for r in recs))
+    ctx.note("err_family_programs", sum(1 for _, p in progs if p.get("fam") == "err"))
+    ctx.note("distinct_messages", len({d["msg"] for k in keep for d in (k[2] or [])} | {e["msg"] for k in keep for e in k[3]}))
+    ctx.note("records_with_several_messages_at_one_error_range",
+             sum(1 for r in recs if len({tuple(e) for e in r["errs"]}) > len({tuple(e[:4]) for e in r["errs"]})))
     ctx.rule("records = (program, configuration) runs of diagnose_file judged by TLC; programs are distinct texts generated by "
-             "DiagWF.tla (<= 2 library lines x LF/CRLF x every single-token drop/dup/truncation; thorough adds sampled 3-line "
-             "programs); non-trivial = at least one diagnostic or parse error")
+             "DiagWF.tla (<= 2 library lines x LF/CRLF x every single-token drop/dup/truncation; the err family: one of 72 "
+             "error-template lines -- invalid escapes, unfinished strings, malformed numerals, operators without operand, "
+             "stray brackets, broken statements and doc tags -- alone with every drop/dup/truncation, or next to a valid "
+             "line; thorough adds sampled 3-line programs); non-trivial = at least one diagnostic or parse error")
     ctx.assume("LSP positions of the recorded parse errors and the line table are computed by the glue with the LSP 3.17 rules "
-               "(UTF-16, CR/LF/CRLF); placeholder = %{name}, {name} or {} left in a message")
+               "(UTF-16, CR/LF/CRLF); placeholder = %{name}, {name} or {} left in a message and not a verbatim piece of the program text; a parse error "
+               "'appears as a diagnostic' = a syntax-error / doc-syntax-error diagnostic with the error's range and message")
     rnd = random.Random(ctx.seed)
     for k in rnd.sample(range(len(recs)), min(4, len(recs))):
         ctx.sample({"program": keep[k][0], "config": keep[k][1], "record": recs[k]})
